@@ -148,8 +148,15 @@ func runSolseq(c *proto.Case) *proto.Result {
 	r.G0 = runtime.NumGoroutine()
 
 	sols := make([]*prolog.Solutions, len(p.Queries))
+	single := make([]*prolog.Solution, len(p.Queries))
+	reuse := make([]struct{ X interface{} }, len(p.Queries))
 	ok := true
 	for i, q := range p.Queries {
+		if p.Solution {
+			single[i] = interp.QuerySolutionContext(context.Background(), q)
+			r.QueryErr = append(r.QueryErr, "")
+			continue
+		}
 		s, err := interp.QueryContext(context.Background(), q)
 		if err != nil {
 			r.QueryErr = append(r.QueryErr, err.Error())
@@ -173,6 +180,31 @@ func runSolseq(c *proto.Case) *proto.Result {
 			}()
 			s := sols[si]
 			var err error
+			if p.Solution {
+				switch op {
+				case 'S':
+					m := map[string]interface{}{}
+					err = single[si].Scan(m)
+					if v, present := m[name]; !present {
+						o.Val = "absent"
+					} else if b, jerr := json.Marshal(v); jerr != nil {
+						o.Val = fmt.Sprintf("unencodable %T", v)
+					} else {
+						o.Val = string(b)
+					}
+				case 'E':
+					err = single[si].Err()
+				default:
+					panic("solseq: a Solution has Scan and Err only")
+				}
+				if err == nil {
+					o.Nil = true
+				} else {
+					o.Err = errOf(cv, err)
+					o.Closed = errors.Is(err, prolog.ErrClosed)
+				}
+				return
+			}
 			switch op {
 			case 'N':
 				b := s.Next()
@@ -187,6 +219,16 @@ func runSolseq(c *proto.Case) *proto.Result {
 					o.Val = fmt.Sprintf("unencodable %T", v)
 				} else {
 					o.Val = string(b)
+					if name == "X" && err == nil {
+						// once more, into the destination that received the earlier answers
+						if rerr := s.Scan(&reuse[si]); rerr != nil {
+							o.ValReuse = "error " + rerr.Error()
+						} else if rb, jerr := json.Marshal(reuse[si].X); jerr != nil {
+							o.ValReuse = fmt.Sprintf("unencodable %T", reuse[si].X)
+						} else {
+							o.ValReuse = string(rb)
+						}
+					}
 				}
 			case 'E':
 				err = s.Err()
@@ -220,7 +262,7 @@ func runSolseq(c *proto.Case) *proto.Result {
 		// Leave nothing open: a Solutions that the sequence did not close is closed now (reported as cleanup
 		// calls; the sequence extended by Close is a sequence of the property's domain as well).
 		for si := range sols {
-			if !closed[si] {
+			if !closed[si] && !p.Solution {
 				call(si, 'C', true)
 			}
 		}
